@@ -22,6 +22,7 @@ import (
 
 	"github.com/getkin/kin-openapi/openapi3"
 	"github.com/getkin/kin-openapi/openapi3filter"
+	"github.com/getkin/kin-openapi/routers"
 
 	"kinverif/internal/hx"
 )
@@ -29,10 +30,12 @@ import (
 func init() {
 	hx.Register(&hx.Prop{
 		ID: "C05",
-		Rule: "exhaustive: the 17 legal (in, style, explode) cells × parameter names (plain and with regex/URL/header/cookie metacharacters: $filter, a.b, x+y, n|m, q*, u[x], k(1)) × {integer, int32, number, boolean, string, array of each, flat object, deepObject with primitive, array-valued and nested-object properties (all subsets of well-formed keys)} × " +
+		Rule: "exhaustive: the 17 legal (in, style, explode) cells × parameter names (plain and with regex/URL/header/cookie metacharacters: $filter, a.b, x+y, n|m, q*, u[x], k(1)) × {integer, int32, number, boolean, string, array of each, flat object, deepObject with primitive, array-valued and nested-object properties (all subsets of well-formed keys), deepObject at every depth (three schemas of depth 4–5: objects in objects, arrays of objects, arrays of arrays, nested free-form maps × random subsets of their well-formed leaves with well- and ill-typed texts × a key soup of depth 1–5)} × " +
 			"value sets (sizes 0–3, negative numbers, dots, delimiters inside strings, strings starting with letters of the parameter name, key orders) × absent/empty/present × required × allowEmptyValue × constraint variants (min/max, enum, minItems, required properties), " +
 			"each serialised by an independent Go implementation of the OpenAPI style table (the driver re-encodes and must agree); allOf/anyOf/oneOf over pairs of leaf schemas × raw texts and × array/object values serialised for the cell (deepObject included); absence with and without other path/query parameters; " +
 			"plus a seeded stream of malformed / free carrier texts assembled from delimiters, prefixes and primitive tokens (incl. non-decimal integers, odd pair counts, wrong prefixes). " +
+			"Content-described parameters (content: {<media>: {schema}}): 4 locations × media key sets × 10 schemas × JSON and non-JSON texts × one / several / no values × required × allowEmptyValue (verdict only). " +
+			"Every header case runs twice: as a request parameter (ValidateParameter) and as a response header (ValidateResponse → validateResponseHeader). " +
 			"A case is non-trivial when the decoder is actually entered (the driver then reports cell, shape, verdict, value kind, round-trip oracle and model≠spec branches); requests with an empty PathParams map / empty query (early return) count as trivial.",
 		Exhaustive: true,
 		Gen:        genC05,
@@ -43,8 +46,9 @@ func init() {
 		Assumptions: []string{
 			"number texts: strconv.ParseFloat is trusted; the model keeps the exact decimal value and the harness compares with the nearest float64",
 			"number texts with '_' digit separators, 'inf'/'nan' or hex floats are reported unsupported by the driver; texts never contain U+001F or non-ASCII characters; cookie values avoid ';', '\"', '\\' and outer spaces (net/http cookie syntax)",
-			"deepObject keys have at most three bracket segments, canonical decimal array indexes and pairwise different segment lists (other shapes are reported unsupported by the driver and only run for crashes)",
-			"schemas carry no default, pattern, format other than int32, nullable or nested compositions",
+			"deepObject keys have at most three bracket segments and canonical decimal array indexes; keys whose bracket groups coincide (p[a] and p[a]zz) are order-dependent in the code: the model answers for both map orders, at most one collision of two single-valued keys per request (other shapes are reported unsupported by the driver and only run for crashes)",
+			"schemas carry no default, pattern, format other than int32, nullable or nested compositions; a schema without type carries at most an enum",
+			"content-described parameters: json.Unmarshal is trusted (the driver parses the same text with Lean's JSON parser); values are scalars, arrays of scalars or flat objects of scalars (other JSON shapes are reported unsupported by the driver); JSON texts are plain (no escapes, no exotic number spellings)",
 		},
 	})
 }
@@ -124,6 +128,12 @@ func c05Leaf(m map[string]any) *openapi3.Schema {
 			s.Enum = append(s.Enum, c05EnumVal(e))
 		}
 		return s
+	case "untyped":
+		s := &openapi3.Schema{} // no type, no composition
+		for _, e := range jlist(m["enum"]) {
+			s.Enum = append(s.Enum, c05EnumVal(e))
+		}
+		return s
 	case "obj", "deep":
 		s := &openapi3.Schema{Type: &openapi3.Types{"object"}, Properties: openapi3.Schemas{}}
 		for _, kv := range jlist(m["props"]) {
@@ -164,8 +174,38 @@ func c05Leaf(m map[string]any) *openapi3.Schema {
 	}
 }
 
+// c05Nest builds a nested property schema (kind prim | arr{items} | obj{props, required, addl}) of any depth.
+func c05Nest(m map[string]any) *openapi3.Schema {
+	switch jstr(m, "k") {
+	case "arr":
+		it, _ := m["items"].(map[string]any)
+		return &openapi3.Schema{Type: &openapi3.Types{"array"}, Items: c05Nest(it).NewRef()}
+	case "obj", "nest":
+		s := &openapi3.Schema{Type: &openapi3.Types{"object"}, Properties: openapi3.Schemas{}}
+		for _, kv := range jlist(m["props"]) {
+			p := jlist(kv)
+			if len(p) != 2 {
+				continue
+			}
+			k, _ := p[0].(string)
+			pm, _ := p[1].(map[string]any)
+			s.Properties[k] = c05Nest(pm).NewRef()
+		}
+		s.Required = toStrs(m["required"])
+		if am, ok := m["addl"].(map[string]any); ok {
+			s.AdditionalProperties = openapi3.AdditionalProperties{Schema: c05Nest(am).NewRef()}
+		}
+		return s
+	default:
+		return c05Prim(m)
+	}
+}
+
 func c05Schema(m map[string]any) *openapi3.Schema {
 	k := jstr(m, "k")
+	if k == "nest" {
+		return c05Nest(m)
+	}
 	if k == "allOf" || k == "anyOf" || k == "oneOf" {
 		s := &openapi3.Schema{}
 		var refs openapi3.SchemaRefs
@@ -285,7 +325,101 @@ func c05ErrKind(err error) string {
 	return "other"
 }
 
+// c05RunResp: the header of the case as a *response* header: decoded value through VerifDecodeHeader (decodeValue over
+// headerParamDecoder, as validateResponseHeader calls it), verdict from ValidateResponse on a response that declares
+// only this header.
+func c05RunResp(c hx.Case) any {
+	p, in := c05Build(c)
+	hdr := &openapi3.Header{Parameter: openapi3.Parameter{Required: p.Required, Schema: p.Schema, Style: p.Style, Explode: p.Explode}}
+	respHeader := http.Header{}
+	if h, ok := c["header"].([]any); ok {
+		vs := []string{}
+		for _, v := range h {
+			s, _ := v.(string)
+			vs = append(vs, s)
+		}
+		respHeader[http.CanonicalHeaderKey(p.Name)] = vs
+	}
+	sm, _ := hdr.SerializationMethod()
+	val, found, derr := openapi3filter.VerifDecodeHeader(respHeader, p.Name, sm, p.Schema, p.Required)
+	desc := ""
+	resp := &openapi3.Response{Description: &desc, Headers: openapi3.Headers{p.Name: &openapi3.HeaderRef{Value: hdr}}}
+	op := &openapi3.Operation{Responses: openapi3.NewResponses(openapi3.WithStatus(200, &openapi3.ResponseRef{Value: resp}))}
+	in.Route = &routers.Route{Operation: op}
+	rin := &openapi3filter.ResponseValidationInput{RequestValidationInput: in, Status: 200, Header: respHeader, Options: &openapi3filter.Options{}}
+	verr := openapi3filter.ValidateResponse(context.Background(), rin)
+	verdict := "accept"
+	if verr != nil {
+		var re *openapi3filter.ResponseError
+		var se *openapi3.SchemaError
+		var me openapi3.MultiError
+		switch {
+		case !errors.As(verr, &re):
+			verdict = "other"
+		case re.Err == nil:
+			verdict = "missing" // "response header %q missing" is the only ResponseError of this path without a cause
+		case errors.As(re.Err, &se) || errors.As(re.Err, &me):
+			verdict = "schema"
+		default:
+			verdict = c05ErrKind(re.Err)
+		}
+	}
+	out := map[string]any{"kind": verdict, "verdict": verdict, "found": found, "value": c05Canon(val)}
+	if k := c05ErrKind(derr); k != "" {
+		out["err"] = k
+		out["value"] = nil
+	} else {
+		out["err"] = nil
+	}
+	return out
+}
+
+// c05RunContent: a content-described parameter (content: {<media>: {schema}}): ValidateParameter's verdict only — the decoded
+// value of decodeContentParameter is not observable.
+func c05RunContent(c hx.Case) any {
+	name := jstr(c, "name")
+	content := openapi3.Content{}
+	for _, m := range jlist(c["media"]) {
+		mt := &openapi3.MediaType{}
+		if sm, ok := c["schema"].(map[string]any); ok {
+			mt.Schema = c05Schema(sm).NewRef()
+		}
+		ms, _ := m.(string)
+		content[ms] = mt
+	}
+	d := cloneCase(c)
+	d["schema"] = map[string]any{"k": "prim", "t": "string"}
+	_, in := c05Build(d)
+	p := &openapi3.Parameter{Name: name, In: jstr(c, "in"), Required: jbool(c, "required"), AllowEmptyValue: jbool(c, "allowEmpty"), Content: content}
+	verr := openapi3filter.ValidateParameter(context.Background(), in, p)
+	verdict := "accept"
+	if verr != nil {
+		var re *openapi3filter.RequestError
+		var se *openapi3.SchemaError
+		var me openapi3.MultiError
+		switch {
+		case !errors.As(verr, &re):
+			verdict = "other"
+		case errors.Is(re.Err, openapi3filter.ErrInvalidRequired):
+			verdict = "missing"
+		case errors.Is(re.Err, openapi3filter.ErrInvalidEmptyValue):
+			verdict = "empty"
+		case errors.As(re.Err, &se) || errors.As(re.Err, &me):
+			verdict = "schema"
+		default:
+			verdict = "other"
+		}
+	}
+	return map[string]any{"kind": verdict, "verdict": verdict, "found": nil, "value": nil, "err": nil}
+}
+
 func runC05(c hx.Case) any {
+	if jstr(c, "mode") == "resp" {
+		return c05RunResp(c)
+	}
+	if jstr(c, "mode") == "content" {
+		return c05RunContent(c)
+	}
 	p, in := c05Build(c)
 	val, found, derr := openapi3filter.VerifDecodeStyledParameter(p, in)
 	p2, in2 := c05Build(c)
@@ -461,9 +595,36 @@ func cmpC05x(c hx.Case, impl any, reply map[string]any) hx.Verdict {
 	if !jbool(spec, "decode_agrees") {
 		return hx.Verdict{IM: false, IS: true, Detail: "specification decoder and round-trip oracle disagree in the driver"}
 	}
+	if jstr(c, "mode") == "content" { // verdict only
+		iv, mv, sv := jstr(im, "verdict"), jstr(model, "verdict"), jstr(spec, "verdict")
+		if iv != mv {
+			v.IM = false
+			v.Detail = fmt.Sprintf("verdict: impl %s, model %s", iv, mv)
+		}
+		if iv != sv {
+			v.IS = false
+			v.Detail = fmt.Sprintf("verdict: impl %s, specification %s; ", iv, sv) + v.Detail
+		}
+		return v
+	}
 	ierr, merr := fmt.Sprint(im["err"]), fmt.Sprint(model["err"])
 	iv, mv, sv := jstr(im, "verdict"), jstr(model, "verdict"), jstr(spec, "verdict")
+	decodeSame := func(m map[string]any) bool {
+		if fmt.Sprint(im["err"]) != fmt.Sprint(m["err"]) {
+			return false
+		}
+		return im["err"] != nil || (jbool(im, "found") == jbool(m, "found") && c05Same(im["value"], m["value"], true))
+	}
+	// colliding deepObject keys: the Go map order decides; the model answers for both orders, and the decoder is run
+	// twice (hook, ValidateParameter), so value and verdict may come from different orders
+	alt, _ := reply["model_alt"].(map[string]any)
 	switch {
+	case alt != nil:
+		if !(decodeSame(model) || decodeSame(alt)) || !(iv == mv || iv == jstr(alt, "verdict")) {
+			v.IM = false
+			v.Detail = fmt.Sprintf("order-dependent decode: impl %s/%s matches neither map order of the model (%s/%s, %s/%s)",
+				hx.Canon(im["value"]), iv, hx.Canon(model["value"]), mv, hx.Canon(alt["value"]), jstr(alt, "verdict"))
+		}
 	case ierr != merr:
 		v.IM = false
 		v.Detail = fmt.Sprintf("decode error kind: impl %s, model %s", ierr, merr)
@@ -778,8 +939,17 @@ func c05AbsentCar(cl c05Cell, name string, mode int) map[string]any {
 	return map[string]any{}
 }
 
-func genC05(ctx *hx.Ctx, emit func(hx.Case)) {
+func genC05(ctx *hx.Ctx, emit0 func(hx.Case)) {
 	r := ctx.Rng
+	// every header case is also run as a response header (validateResponseHeader: the same decoder, another decision)
+	emit := func(c hx.Case) {
+		emit0(c)
+		if jstr(c, "in") == "header" && !jbool(c, "allowEmpty") && !jbool(c, "useDefaults") {
+			d := cloneCase(c)
+			d["mode"] = "resp"
+			emit0(d)
+		}
+	}
 	names := []string{"p", "id"}
 	// parameter names with characters that are special to regular expressions, URLs, header or cookie syntax
 	special := []string{"$filter", "a.b", "x+y", "n|m", "q*", "u[x]", "k(1)"}
@@ -839,6 +1009,33 @@ func genC05(ctx *hx.Ctx, emit func(hx.Case)) {
 									emit(c05Case(cl, name, sch, c05AbsentCar(cl, name, mode), req, ae))
 								}
 							}
+						}
+					}
+				}
+			}
+		}
+	}
+	// ---- A2. schemas without type ({} and {enum: [...]}): every cell × texts × presence
+	untypedSchemas := []map[string]any{{"k": "untyped", "enum": []any{}}, {"k": "untyped", "enum": []any{"a", "id", "12"}}}
+	for _, cl := range c05Cells {
+		for ni, name := range allNames {
+			if !nameOK(cl, name) || (ni >= 2 && ni%2 == 1) {
+				continue
+			}
+			for _, sch := range untypedSchemas {
+				for _, txt := range []string{"a", "id", "12", "dave", "x,y", "1.5", "true"} {
+					for _, req := range bools {
+						c, ok := c05EncCase(cl, name, sch, "prim", txt, nil, nil, req, false, nil)
+						if ok {
+							c["enc"] = nil // the round-trip oracle is for typed leaves
+							emit(c)
+						}
+					}
+				}
+				for mode := 0; mode < 3; mode++ {
+					for _, req := range bools {
+						for _, ae := range bools {
+							emit(c05Case(cl, name, sch, c05AbsentCar(cl, name, mode), req, ae))
 						}
 					}
 				}
@@ -974,7 +1171,8 @@ func genC05(ctx *hx.Ctx, emit func(hx.Case)) {
 		vals []string
 	}
 	deepParts := []dk{{"[a]", []string{"7", "-4", "x"}}, {"[s]", []string{"dave", ""}}, {"[l][0]", []string{"1"}}, {"[l][1]", []string{"2", "q"}},
-		{"[l][2]", []string{"3"}}, {"[o][x]", []string{"5", "z"}}, {"[o][y]", []string{"w"}}, {"[zz]", []string{"1"}}}
+		{"[l][2]", []string{"3"}}, {"[o][x]", []string{"5", "z"}}, {"[o][y]", []string{"w"}}, {"[zz]", []string{"1"}},
+		{"[a]zz", []string{"9", "y"}}} // text after the closing bracket: not a key of the parameter; the code reads it as [a]
 	for ni, name := range allNames {
 		for mask := 1; mask < 1<<len(deepParts); mask++ {
 			if ni >= 2 && mask%5 != ni%5 {
@@ -1011,7 +1209,8 @@ func genC05(ctx *hx.Ctx, emit func(hx.Case)) {
 	}
 	// D2: random — clashes, wrong shapes, deeper keys, several values, foreign keys
 	deepKeys := []string{"[a]", "[s]", "[l][0]", "[l][1]", "[l][2]", "[l]", "[a][0]", "[zz]", "[zz][q]", "[l][x]", "[s][k]", "[a][b][c]", "[l][01]",
-		"[o][x]", "[o][y]", "[o]", "[o][zz]", "[o][x][q]", "[l][0][x]", "[o][x][q][r]"}
+		"[o][x]", "[o][y]", "[o]", "[o][zz]", "[o][x][q]", "[l][0][x]", "[o][x][q][r]",
+		"[a]zz", "[a][", "[s]]", "[o][x]zz", "[l][0]x", "[a]x[b]", "[o]q[x]", "[zz]y"}
 	deepVals := []string{"1", "-4", "x", "", "12", "010"}
 	nDeep := 3000
 	if ctx.Thorough() {
@@ -1038,9 +1237,171 @@ func genC05(ctx *hx.Ctx, emit func(hx.Case)) {
 		}
 		emit(c05Case(deepCl, name, hx.Pick(r, deepSchemas), map[string]any{"query": q}, r.Chance(40), false))
 	}
+	// ---- D3. deepObject at every depth: objects in objects, arrays of objects, arrays of arrays, nested free-form maps
+	nObj := func(req []any, addl any, kv ...any) map[string]any {
+		props := []any{}
+		for i := 0; i+1 < len(kv); i += 2 {
+			props = append(props, []any{kv[i], kv[i+1]})
+		}
+		return map[string]any{"k": "obj", "props": props, "required": req, "addl": addl}
+	}
+	nArr := func(items map[string]any) map[string]any { return map[string]any{"k": "arr", "items": items} }
+	asNest := func(m map[string]any) map[string]any { return c05With(m, "k", "nest") }
+	inner := nObj([]any{}, nil, "z", c05PS("string"), "w", nArr(c05PS("integer")), "r", nObj([]any{"u"}, nil, "u", c05PS("boolean")))
+	nest1 := asNest(nObj([]any{}, nil, "a", c05PS("integer"), "o", nObj([]any{}, nil, "x", c05With(c05PS("integer"), "max", 6), "q", inner),
+		"l", nArr(nObj([]any{}, nil, "k", c05PS("integer"), "s", c05PS("string"))), "m", nArr(nArr(c05PS("integer"))),
+		"t", nObj([]any{}, c05PS("number"))))
+	nest2 := asNest(nObj([]any{"o"}, nObj([]any{}, nil, "v", c05PS("integer")), "o", nObj([]any{"q"}, c05PS("string"), "q", inner)))
+	nest3 := asNest(nObj([]any{}, nArr(c05PS("int32")), "a", c05PS("boolean"), "l", nArr(nArr(nObj([]any{}, nil, "k", c05PS("number"))))))
+	nestSchemas := []map[string]any{nest1, nest2, nest3}
+	// well-formed leaves per schema: key suffix -> texts (first = well typed)
+	nestLeaves := [][]dk{
+		{{"[a]", []string{"7", "x"}}, {"[o][x]", []string{"5", "9", "z"}}, {"[o][q][z]", []string{"dave", ""}}, {"[o][q][w][0]", []string{"1"}},
+			{"[o][q][w][1]", []string{"2", "q"}}, {"[o][q][r][u]", []string{"true", "no"}}, {"[l][0][k]", []string{"3"}}, {"[l][1][s]", []string{"v"}},
+			{"[l][1][k]", []string{"4", "k"}}, {"[m][0][0]", []string{"1"}}, {"[m][0][1]", []string{"2"}}, {"[m][1][0]", []string{"3", "x"}},
+			{"[t][any]", []string{"1.5", "n"}}, {"[t][b]", []string{"2"}}, {"[zz][y]", []string{"1"}}},
+		{{"[o][q][z]", []string{"dave"}}, {"[o][q][w][0]", []string{"1", "w"}}, {"[o][q][r][u]", []string{"false"}}, {"[o][free]", []string{"s"}},
+			{"[e1][v]", []string{"5", "x"}}, {"[e2][v]", []string{"6"}}, {"[e2][zz]", []string{"1"}}, {"[o][q][r][zz]", []string{"1"}}},
+		{{"[a]", []string{"true", "1x"}}, {"[l][0][0][k]", []string{"1.5", "k"}}, {"[l][0][1][k]", []string{"2"}}, {"[l][1][0][k]", []string{"3"}},
+			{"[n1][0]", []string{"4", "2147483648"}}, {"[n1][1]", []string{"5"}}, {"[n2][0]", []string{"6"}}},
+	}
+	for si, sch := range nestSchemas {
+		parts := nestLeaves[si]
+		for ni, name := range allNames {
+			if ni >= 2 && ni%3 != si%3 {
+				continue
+			}
+			nSub := 300
+			if ctx.Thorough() {
+				nSub = 4000
+			}
+			for i := 0; i < nSub; i++ {
+				q := []any{}
+				for bi, part := range parts {
+					if !r.Chance(35) {
+						continue
+					}
+					v := part.vals[0]
+					if r.Chance(15) {
+						v = part.vals[(i+bi)%len(part.vals)]
+					}
+					q = append(q, []any{name + part.key, []any{v}})
+				}
+				if len(q) == 0 {
+					continue
+				}
+				emit(c05Case(deepCl, name, sch, map[string]any{"query": q}, i%3 == 0, false))
+			}
+			for mode := 0; mode < 3; mode++ {
+				for _, req := range bools {
+					emit(c05Case(deepCl, name, sch, c05AbsentCar(deepCl, name, mode), req, false))
+				}
+			}
+		}
+	}
+	// random key soup of depth 1–5 over the segment vocabulary of the nested schemas: clashes, scalars for maps, maps for scalars,
+	// holes, foreign keys, junk after the brackets
+	nSegs := []string{"a", "o", "x", "q", "z", "w", "r", "u", "l", "m", "k", "s", "t", "v", "e1", "n1", "0", "1", "2", "zz", "any"}
+	nSoup := 4000
+	if ctx.Thorough() {
+		nSoup = 80000
+	}
+	for i := 0; i < nSoup; i++ {
+		name := hx.Pick(r, allNames)
+		sch := hx.Pick(r, nestSchemas)
+		q := []any{}
+		seen := map[string]bool{}
+		for j, k := 0, 1+r.Intn(5); j < k; j++ {
+			key := name
+			for d, dn := 0, 1+r.Intn(5); d < dn; d++ {
+				key += "[" + hx.Pick(r, nSegs) + "]"
+			}
+			if r.Chance(4) {
+				key += hx.Pick(r, []string{"zz", "[", "]"})
+			}
+			if seen[key] {
+				continue
+			}
+			seen[key] = true
+			vals := []any{hx.Pick(r, deepVals)}
+			if r.Chance(4) {
+				vals = append(vals, hx.Pick(r, deepVals))
+			}
+			q = append(q, []any{key, vals})
+		}
+		emit(c05Case(deepCl, name, sch, map[string]any{"query": q}, r.Chance(40), false))
+	}
+	// ---- H. content-described parameters: location × media keys × schema × JSON / non-JSON texts × number of values × flags
+	cSchemas := []any{c05PS("integer"), c05With(c05PS("number"), "max", 2), c05PS("string"), c05With(c05PS("string"), "enum", []any{"a", "dave"}), c05PS("boolean"),
+		map[string]any{"k": "arr", "items": c05PS("integer")}, map[string]any{"k": "arr", "items": c05PS("string"), "minItems": 2},
+		objSchemas[1], map[string]any{"k": "anyOf", "alts": []any{c05PS("integer"), c05PS("boolean")}}, nil}
+	cTexts := []string{"5", "-3", "1.5", "true", "null", "dave", "\"dave\"", "\"a\"", "[1,2]", "[\"a\",\"b\"]", "[]", "{}", "{\"a\":1}", "{\"a\":\"x\",\"b\":\"y\"}",
+		"{\"b\":\"y\"}", "a,b", "{a:1}", "[1,", "", "1 2", "[[1]]", "{\"a\":{\"z\":1}}"}
+	cMedia := [][]any{{"application/json"}, {"application/json"}, {"*/*"}, {"application/*"}, {"text/plain"}, {"application/json", "text/plain"}, {}, {"application/json; charset=utf-8"}}
+	for li, loc := range []string{"path", "query", "header", "cookie"} {
+		cl := c05Cell{loc, "", false}
+		for mi, media := range cMedia {
+			for si, sch := range cSchemas {
+				if mi >= 2 && (si+mi)%3 != 0 {
+					continue
+				}
+				for ti, txt := range cTexts {
+					if !ctx.Thorough() && mi >= 1 && (ti+si)%2 == 1 {
+						continue
+					}
+					if loc == "cookie" && !c05CookieSafe(txt) {
+						continue
+					}
+					var car map[string]any
+					switch loc {
+					case "path":
+						car = map[string]any{"path": txt}
+					case "query":
+						car = map[string]any{"query": []any{[]any{"p", []any{txt}}}}
+					case "header":
+						car = map[string]any{"header": []any{txt}}
+					default:
+						car = map[string]any{"cookie": txt}
+					}
+					c := c05Case(cl, "p", nil, car, (ti+si+li)%2 == 0, ti%5 == 0)
+					c["mode"], c["media"], c["schema"] = "content", media, sch
+					emit0(c)
+				}
+				// several values (query: array of items; header: refused), no value, absent
+				multi := [][]string{{"1", "2"}, {"a", "b"}, {"\"a\"", "\"b\""}, {"1", "x"}, {"[1]", "2"}, {"null", "1"}}
+				for vi, vs := range multi {
+					l := []any{}
+					for _, v := range vs {
+						l = append(l, v)
+					}
+					if loc == "query" {
+						c := c05Case(cl, "p", nil, map[string]any{"query": []any{[]any{"p", l}}}, vi%2 == 0, false)
+						c["mode"], c["media"], c["schema"] = "content", media, sch
+						emit0(c)
+					}
+					if loc == "header" {
+						c := c05Case(cl, "p", nil, map[string]any{"header": l}, vi%2 == 0, false)
+						c["mode"], c["media"], c["schema"] = "content", media, sch
+						emit0(c)
+					}
+				}
+				for mode := 0; mode < 3; mode++ {
+					for _, req := range bools {
+						c := c05Case(cl, "p", nil, c05AbsentCar(c05Cell{loc, "", false}, "p", mode), req, mode == 1 && req)
+						c["mode"], c["media"], c["schema"] = "content", media, sch
+						emit0(c)
+					}
+				}
+			}
+		}
+	}
 	// ---- E. compositions over pairs of leaf schemas
 	leaves := []map[string]any{c05PS("integer"), c05PS("string"), c05PS("boolean"), c05With(c05PS("integer"), "max", 6), c05PS("number"),
 		{"k": "arr", "items": c05PS("integer")}, {"k": "arr", "items": c05PS("string")}, objSchemas[0], objSchemas[1]}
+	// … and leaves whose values / enums meet across alternatives (a value read by one alternative is validated against all)
+	leaves = append(leaves, c05PS("int32"), c05With(c05PS("integer"), "enum", []any{5, 12}),
+		map[string]any{"k": "arr", "items": c05PS("integer"), "enum": []any{[]any{1, 2}}}, map[string]any{"k": "arr", "items": c05PS("int32")},
+		map[string]any{"k": "untyped", "enum": []any{}})
 	compRaw := []string{"5", "12", "true", "dave", "1,2", "a,5", "a,5,b,x", "a=5", "1.5", "", "a,x"}
 	for _, cl := range c05Cells {
 		if cl.style == "deepObject" {
